@@ -2,6 +2,7 @@ package main
 
 import (
 	"fmt"
+	"go/ast"
 	"go/types"
 	"math/big"
 )
@@ -36,6 +37,13 @@ type AggV struct {
 type StrV struct{ S string }
 
 type TupleV []Value
+
+// ClosureV is a function literal together with the frame it was created in (non-escaping use only: it may be
+// stored in a local variable and called; the captured variables are the live objects of that frame).
+type ClosureV struct {
+	Lit *ast.FuncLit
+	Env *Frame
+}
 
 type OpaqueV struct {
 	Kind string
